@@ -222,6 +222,33 @@ def eval_pairs(acc, arm, ref, case, th):
             if not (marg <= 0.0):
                 acc.violation("shared_argument_modified", dict(case, pair=[A, B]), marg, 0.0)
     acc.outcome("query_pairs", len(names) ** 2)
+    # the same argument BUFFER with new values: ask B at th, let the caller advance its joint vector in place, ask B again
+    # (a result remembered under a reference to the caller's array is only wrong here)
+    lo, hi = np.maximum(ref.lo, -6.2), np.minimum(ref.hi, 6.2)
+    th2 = ref.clamp(th + 0.37 * (hi - lo) * np.array([0.3, -0.2, 0.25, -0.35, 0.2, -0.3, 0.15])[:n])
+    if np.abs(th2 - th).max() > 1e-3:
+        J2 = poe.jac_space(S_space, th2)
+        T2 = ref.fk(th2)
+        E2 = np.eye(4)
+        E2[:3, 3] = T2[:3, 3]
+        want2 = {"FK": T2, "jacobian": J2, "jacobianBody": se3.adj(se3.tinv(T2)) @ J2, "jacobianEETrans": se3.adj(se3.tinv(E2)) @ J2,
+                 "numericalJacobian": J2, "velocityAtEndEffector": J2 @ qd, "staticForces": J2.T @ Fv}
+        for A in ("jacobian", "FK"):
+            for B in want2:
+                a = copy.deepcopy(arm)
+                q, W, v = th.copy(), Wrench(Fv.copy()), qd.copy()
+                try:
+                    Q[A][0](a, q, W, v)
+                    Q[B][0](a, q, W, v)
+                    q[:] = th2
+                    got = Q[B][0](a, q, W, v)
+                except Exception as e:
+                    acc.violation("raised", dict(case, pair=[A, B], advanced=True), repr(e))
+                    continue
+                acc.evals += 1
+                err = rel(got, want2[B])
+                if not (err <= Q[B][2] * 2):
+                    acc.violation("query_after_argument_advanced_in_place", dict(case, pair=[A, B], advanced=True), err, Q[B][2] * 2)
 
 
 def work(p):
